@@ -151,6 +151,13 @@ Next ==
        ELSE IF ev.e = "Tap" THEN Judge(ev, TapExpected(ev), TapObserved(ev), <<"Tap", ev.mode, Len(ev.scripts), ev.sighash # "">>)
        \* the leaf hash the debugger announces for a script-path spend (also for leaf versions it then refuses): TapLeaf(version || script), shown reversed
        ELSE IF ev.e = "LeafShown" THEN Judge(ev, [shown |-> BytesToHex(Reverse(TapLeafHash(ev.leafver, H(ev.script))))], [shown |-> ev.shown], <<"LeafShown", ev.leafver = 192>>)
+       \* what the verbose start-up prints about the two transactions: identifier (reversed double-SHA256 of the witness-stripped encoding),
+       \* and the header line of each (identifier prefix, version, counts, lock time)
+       ELSE IF ev.e = "IdsShown" THEN
+            LET d(hex) == LET t == Parse(HexToBytes(hex))[2] IN
+                          [id |-> BytesToHex(Reverse(TxId(t))), pfx |-> BytesToHex(Take(Reverse(TxId(t)), 0, 5)), ver |-> BytesToHex(t.version),
+                           nin |-> Len(t.vin), nout |-> Len(t.vout), lock |-> BytesToHex(t.locktime)]
+            IN Judge(ev, [tx |-> d(ev.tx), txin |-> d(ev.txin)], [tx |-> ev.shown_tx, txin |-> ev.shown_in], <<"IdsShown", ev.kind>>)
        ELSE IF ev.e = "Amt" THEN Judge(ev, AmtExpected(ev), AmtObserved(ev), <<"Amt", ev.ok>>)
        ELSE IF ev.e = "FlagList" THEN Judge(ev, FlagListExpected(ev), FlagListObserved(ev), <<"FlagList", ev.accepted, Len(ev.flags)>>)
        ELSE IF ev.e = "DefaultFlags" THEN Judge(ev, DefaultExpected(ev), DefaultObserved(ev), <<"DefaultFlags">>)
